@@ -99,6 +99,34 @@ Theorem C11_fragment_predict_value : forall squash lo hi x,
 Proof. exact frag_predict_value. Qed.
 Print Assumptions C11_fragment_predict_value.
 
+(* torch_layers.create_mlp (actor / critic / q networks): the layer list ends with Tanh exactly when squash_output is set, for EVERY
+   net_arch - the empty one included -, output size, bias flag and pre / post module lists; Tanh occurs nowhere else; one Linear per
+   hidden size plus the output layer *)
+Theorem C11_mlp_last_is_tanh_iff_squash : forall i o arch sq b npre npost,
+  last (mlp_layers i o arch sq b npre npost) LAct = LTanh <-> sq = true.
+Proof. exact mlp_last_is_tanh_iff. Qed.
+Print Assumptions C11_mlp_last_is_tanh_iff_squash.
+
+Theorem C11_mlp_tanh_only_last : forall i o arch sq b npre npost,
+  mlp_layers i o arch sq b npre npost = mlp_body i o arch b npre npost ++ (if sq then [LTanh] else []) /\
+  Forall not_tanh (mlp_body i o arch b npre npost).
+Proof. exact mlp_tanh_only_last. Qed.
+Print Assumptions C11_mlp_tanh_only_last.
+
+Theorem C11_mlp_linear_count : forall i o arch sq b npre npost,
+  length (filter is_linear (mlp_layers i o arch sq b npre npost)) = (length arch + (if (0 <? o)%Z then 1 else 0))%nat.
+Proof. exact mlp_linear_count. Qed.
+Print Assumptions C11_mlp_linear_count.
+
+Theorem C11_fragments_mlp : forall arch input_dim output_dim sq,
+  mlp_first_guard arch = (0 <? Z.of_nat (length arch)) /\
+  mlp_loop_count arch = Z.of_nat (length arch) - 1 /\
+  mlp_output_guard output_dim = (0 <? output_dim) /\
+  mlp_last_dim arch input_dim = (if 0 <? Z.of_nat (length arch) then last arch 0 else input_dim) /\
+  mlp_squash_guard sq = sq.
+Proof. exact frag_mlp_guards. Qed.
+Print Assumptions C11_fragments_mlp.
+
 (* ---- the model's predicates are the functions regenerated from utils.py / preprocessing.py / policies.py ---- *)
 Theorem C11_fragments_is_vectorized : forall o s img k,
   vec_box o s = is_vectorized (SBox s img) o /\
@@ -135,3 +163,9 @@ Example C11_ex :
   predict_shape_dict [SBox [2] false; SDiscrete] [3] [[4; 2]; []] = None /\
   onehot 4 2 = [0; 0; 1; 0].
 Proof. vm_compute. repeat split; reflexivity. Qed.
+
+Example C11_ex_mlp :
+  show_mlp 5 2 [] true true 0 0 = [(2, 5, 2, true); (5, 0, 0, false)] /\
+  show_mlp 5 2 [8; 4] false false 1 0 = [(1, 5, 0, false); (2, 5, 8, false); (4, 0, 0, false); (1, 8, 0, false); (2, 8, 4, false); (4, 0, 0, false);
+                                          (1, 4, 0, false); (2, 4, 2, false)].
+Proof. split; reflexivity. Qed.
